@@ -160,7 +160,7 @@ namespace net
   }
 
   // returns the op list and fills the run parameters
-  inline std::vector<Op> generate(uint64_t seed, const std::string &prop, RunParams &rp)
+  inline std::vector<Op> generate(uint64_t seed, const std::string &prop, RunParams &rp, const std::string &world = "")
   {
     Rng swarm = Rng(seed).derive("swarm"), g = Rng(seed).derive("gen");
     static const long sizes[] = {2, 3, 4, 16};
@@ -174,8 +174,8 @@ namespace net
     if (prop == "C07")
     {
       use_lra = swarm.chance(1, 3);
-      use_idl = swarm.chance(1, 4);
-      use_rdl = swarm.chance(1, 5);
+      use_idl = swarm.chance(1, 3);
+      use_rdl = swarm.chance(1, 3);
       use_ov = swarm.chance(1, 4);
       create.add("bvar", 30), create.add("clause", 40), create.add("eq", 4), create.add("conj", 4), create.add("disj", 4), create.add("amo", 3), create.add("exo", 3), create.add("prop", 4), create.add("simp", 4);
       n_create = static_cast<int>(swarm.range(8, 30));
@@ -217,6 +217,27 @@ namespace net
       n_create = static_cast<int>(swarm.range(6, 20));
       n_search = static_cast<int>(swarm.range(8, 30));
     }
+    // "tiny world" runs (small-scope): one arithmetic theory, 2-3 of its variables, a handful of constraints over them,
+    // a few short clauses among the constraint literals and a long walk of assume/pop: the walk visits a large part of
+    // the (assignment, backtracking history) space of such a network, which wide random networks practically never do.
+    bool tiny = false;
+    const bool tiny_draw = swarm.chance(1, 3);
+    if (world == "cycle" && !use_idl && !use_rdl)
+      use_rdl = true;
+    if ((use_lra || use_idl || use_rdl) && prop != "C13" && prop != "C14" && prop != "C20" && (world.empty() ? tiny_draw : world != "wide"))
+    {
+      tiny = true;
+      std::vector<int> th;
+      if (use_lra)
+        th.push_back(0);
+      if (use_idl)
+        th.push_back(1);
+      if (use_rdl)
+        th.push_back(2);
+      int t = th[swarm.below(th.size())];
+      use_lra = t == 0, use_idl = t == 1, use_rdl = t == 2, use_ov = false;
+      dlk = swarm.chance(1, 2) ? 3 : 6;
+    }
     rp.th_mask = (use_lra ? 1 : 0) | (use_idl ? 2 : 0) | (use_rdl ? 4 : 0) | (use_ov ? 8 : 0);
     if (use_lra)
     {
@@ -248,6 +269,170 @@ namespace net
       if (use_rdl)
         search.add("rq", 25);
     }
+    // "ladder" runs: bursts of several constraints over the same pair of time points (or the same linear expression)
+    // with different constants, related to each other by short clauses over the literals just created; assumptions
+    // then prefer recent literals. Reaches: one edge/bound tightened more than once within a decision level, an older
+    // constraint on the same edge standing from an outer level, redundant and subsumed constraints.
+    const bool ladder = (use_idl || use_rdl || use_lra) && swarm.chance(2, 5);
+    auto burst = [&](std::vector<Op> &out)
+    {
+      std::vector<int> th;
+      if (use_idl)
+        th.push_back(0);
+      if (use_rdl)
+        th.push_back(1);
+      if (use_lra)
+        th.push_back(2);
+      int t = th[g.below(th.size())];
+      int n = static_cast<int>(g.range(2, 4));
+      if (t == 2)
+      {
+        Op proto = gen_op(g, "lrel", dlk);
+        for (int i = 0; i < n; ++i)
+        {
+          Op o = proto;
+          o.a[0] = static_cast<long>(g.below(5));
+          o.a[o.a.size() - 2] = g.range(-8, 8); // the constant of the right-hand side
+          out.push_back(o);
+        }
+      }
+      else
+      {
+        Op proto = gen_op(g, t == 0 ? "idist" : "rdist", dlk);
+        for (int i = 0; i < n; ++i)
+        {
+          Op o = proto;
+          if (g.chance(1, 5))
+            std::swap(o.a[0], o.a[1]);
+          o.a[2] = g.range(-dlk, dlk);
+          o.a[4] = static_cast<long>(g.below(3) == 0);
+          out.push_back(o);
+        }
+      }
+      for (int i = 0, k = static_cast<int>(g.range(0, 3)); i < k; ++i)
+      {
+        Op c;
+        c.name = "clause";
+        if (g.chance(2, 3))
+        { // one of the burst implies another one
+          long x = static_cast<long>(g.below(n)), y = static_cast<long>(g.below(n - 1));
+          if (y >= x)
+            ++y;
+          c.a = {2, 0, 1000 + x, 1, 1000 + y};
+        }
+        else
+          c.a = {2, static_cast<long>(g.below(2)), 1000 + static_cast<long>(g.below(n)), static_cast<long>(g.below(2)), 1000 + static_cast<long>(g.below(2 * n + 2))};
+        out.push_back(c);
+      }
+    };
+    if (tiny)
+    {
+      std::vector<Op> ops;
+      ops.push_back(gen_op(g, "bvar", dlk));
+      const char *var = use_lra ? "lvar" : (use_idl ? "ivar" : "rvar");
+      const char *mk = use_lra ? "lrel" : (use_idl ? "idist" : "rdist");
+      for (int i = 0, n = static_cast<int>(swarm.range(2, 3)); i < n; ++i)
+        ops.push_back(gen_op(g, var, dlk));
+      const bool cycle_draw = swarm.chance(1, 2);
+      if (world == "cycle" && use_lra)
+        use_lra = false, use_rdl = true, rp.th_mask = 4;
+      if (!use_lra && (world.empty() ? cycle_draw : world == "cycle"))
+      { // "ladder on a cycle": three time points a, b, c; several rungs (same pair, different bounds) on a->b, implications
+        // among rungs, one or two constraints on each of b->c and c->a, then a long walk. Exercises what backtracking has
+        // to restore when one edge is tightened more than once inside a decision level over a bound set at an outer level.
+        std::vector<Op> ops;
+        ops.push_back(gen_op(g, "bvar", dlk));
+        for (int i = 0; i < 3; ++i)
+          ops.push_back(gen_op(g, var, dlk));
+        long pa = static_cast<long>(swarm.below(3)), pb = (pa + 1 + static_cast<long>(swarm.below(2))) % 3, pc = 3 - pa - pb;
+        if (swarm.chance(1, 2))
+          pa += 1, pb += 1, pc += 1; // with 3 created points + origin: shift away from the origin half of the time
+        int rungs = static_cast<int>(swarm.range(3, 4));
+        auto dist = [&](long f, long t, long k)
+        {
+          Op o;
+          o.name = mk;
+          o.a = {f, t, k, static_cast<long>(g.below(2)), static_cast<long>(g.below(4) == 0)};
+          ops.push_back(o);
+        };
+        for (int i = 0; i < rungs; ++i)
+          dist(pa, pb, g.range(-2, 12));
+        for (int i = 0, n = static_cast<int>(swarm.range(1, 2)); i < n; ++i)
+          dist(pb, pc, g.range(-4, 6));
+        for (int i = 0, n = static_cast<int>(swarm.range(1, 2)); i < n; ++i)
+          dist(pc, pa, g.range(-14, 2));
+        for (int i = 0, n = static_cast<int>(swarm.range(0, 2)); i < n; ++i)
+          ops.push_back(gen_op(g, mk, dlk));
+        for (int i = 0, n = static_cast<int>(swarm.range(1, 3)); i < n; ++i)
+        {
+          Op c;
+          c.name = "clause";
+          long x = static_cast<long>(g.below(rungs)), y = static_cast<long>(g.below(rungs - 1));
+          if (y >= x)
+            ++y;
+          c.a = {2, 0, 2000 + x, 1, 2000 + y};
+          if (g.chance(1, 4))
+            c.a[3] = 0;
+          if (g.chance(1, 4))
+            c.a[4] = 2000 + static_cast<long>(g.below(12));
+          ops.push_back(c);
+        }
+        Weights walk;
+        walk.add("assume", 50), walk.add("pop", 25), walk.add("popto", 3), walk.add("check", 5), walk.add("next", 3);
+        for (int i = 0, n = static_cast<int>(swarm.range(40, 120)); i < n; ++i)
+        {
+          ops.push_back(gen_op(g, walk.pick(g), dlk));
+          if (ops.back().name == "assume")
+            ops.back().a[1] += 2000, ops.back().a[0] = g.chance(3, 4) ? 1 : 0;
+        }
+        return ops;
+      }
+      const long fa = static_cast<long>(swarm.below(10)), fb = static_cast<long>(swarm.below(10));
+      const bool focus = swarm.chance(2, 3); // most constraints over one pair of time points, in either direction
+      for (int i = 0, n = static_cast<int>(swarm.range(4, 9)); i < n; ++i)
+      {
+        ops.push_back(gen_op(g, mk, dlk));
+        if (!use_lra && focus && g.chance(2, 3))
+        {
+          ops.back().a[0] = fa, ops.back().a[1] = fb;
+          if (g.chance(1, 4))
+            std::swap(ops.back().a[0], ops.back().a[1]);
+        }
+        if (use_lra)
+        { // x_i <op> k or x_i <op> x_j + k
+          Op &o = ops.back();
+          o.a.clear();
+          o.a.push_back(static_cast<long>(g.below(5)));
+          o.a.insert(o.a.end(), {1, 1, 0, static_cast<long>(g.below(3)), 0, 0});
+          if (g.chance(1, 2))
+            o.a.insert(o.a.end(), {1, 1, 0, static_cast<long>(g.below(3)), g.range(-dlk, dlk), 0});
+          else
+            o.a.insert(o.a.end(), {0, g.range(-dlk, dlk), 0});
+        }
+      }
+      for (int i = 0, n = static_cast<int>(swarm.range(0, 6)); i < n; ++i)
+      {
+        Op c;
+        c.name = "clause";
+        c.a = {2, static_cast<long>(g.below(2)), 2000 + static_cast<long>(g.below(12)), static_cast<long>(g.below(2)), 2000 + static_cast<long>(g.below(12))};
+        if (g.chance(1, 2))
+          c.a[1] = 0, c.a[3] = 1; // x -> y
+        else if (g.chance(1, 4))
+          c.a[0] = 3, c.a.push_back(static_cast<long>(g.below(2))), c.a.push_back(static_cast<long>(g.below(12)));
+        ops.push_back(c);
+      }
+      Weights walk;
+      walk.add("assume", 50), walk.add("pop", 25), walk.add("popto", 4), walk.add("check", 8), walk.add("next", 4);
+      if (prop == "C12")
+        walk.add(use_idl ? "iq" : "rq", use_lra ? 0 : 20);
+      for (int i = 0, n = static_cast<int>(use_lra ? swarm.range(12, 40) : swarm.range(30, 80)); i < n; ++i)
+      {
+        ops.push_back(gen_op(g, walk.pick(g), dlk));
+        if (ops.back().name == "assume" && g.chance(7, 8))
+          ops.back().a[1] += 2000;
+      }
+      return ops;
+    }
     std::vector<Op> ops;
     // a few variables of each kind first so that modulo references resolve
     int nb = static_cast<int>(swarm.range(2, prop == "C07" || prop == "C13" ? 8 : 4));
@@ -263,7 +448,11 @@ namespace net
       for (int i = 0, n = static_cast<int>(swarm.chance(1, 12) ? 18 : swarm.range(2, 6)); i < n; ++i)
         ops.push_back(gen_op(g, "rvar", dlk));
     for (int i = 0; i < n_create; ++i)
+    {
+      if (ladder && g.chance(1, 5))
+        burst(ops);
       ops.push_back(gen_op(g, create.pick(g), dlk));
+    }
     for (int i = 0; i < n_search; ++i)
     {
       if (g.chance(1, 14))
@@ -276,6 +465,8 @@ namespace net
           ops.push_back(gen_op(g, create.pick(g), dlk));
       }
       ops.push_back(gen_op(g, search.pick(g), dlk));
+      if (ladder && ops.back().name == "assume" && g.chance(1, 2))
+        ops.back().a[1] = 1000 + static_cast<long>(g.below(12));
     }
     return ops;
   }
